@@ -47,6 +47,15 @@ Proof.
   - apply IH; [exact Hnd'|]. intros a b Ha Hb. apply H; right; assumption.
 Qed.
 
+Lemma all_pairs_total {A} (f : A -> A -> bool) (l : list A) :
+  (forall a b, In a l -> In b l -> f a b = true) -> all_pairs f l = true.
+Proof.
+  induction l as [|x t IH]; simpl; intro H; [reflexivity|].
+  apply andb_true_iff. split.
+  - apply forallb_forall. intros y Hy. apply H; [left; reflexivity | right; exact Hy].
+  - apply IH. intros a b Ha Hb. apply H; right; assumption.
+Qed.
+
 Lemma NoDup_map_filter {A} (key : A -> nat) (g : A -> bool) (l : list A) :
   NoDup (map key l) -> NoDup (map key (filter g l)).
 Proof.
@@ -307,6 +316,37 @@ Section Complete.
       rewrite (sym_of_complete _ _ Hsp). apply mem_In. apply Hall. exact Hconn.
   Qed.
 
+  Lemma chk_pinpts_complete : chk_pinpts c l = true.
+  Proof.
+    unfold chk_pinpts. apply all_pairs_total. intros a b Ha Hb. unfold pins_apartb.
+    destruct (same_pt a b) eqn:Hs; [|reflexivity]. unfold same_pt in Hs.
+    apply andb_true_iff in Hs. destruct Hs as [Hx Hy]. apply Z.eqb_eq in Hx. apply Z.eqb_eq in Hy.
+    unfold same_wire_pins. apply forallb_forall. intros w Hw. apply forallb_forall. intros w' Hw'.
+    destruct (pin_of_wire w (a_pin a)) eqn:Hp; [|reflexivity].
+    destruct (pin_of_wire w' (a_pin b)) eqn:Hq; [|reflexivity]. simpl.
+    apply pin_of_wire_In in Hp. apply pin_of_wire_In in Hq.
+    apply wire_pins_PinOfWire in Hp. apply wire_pins_PinOfWire in Hq.
+    rewrite (ok_pinpts c l H a b Ha Hb Hx Hy w w' Hw Hw' Hp Hq). apply Nat.eqb_refl.
+  Qed.
+
+  Lemma geo_end_complete w e pt : EndOK c l w e -> GeoEnd l e pt -> geo_end l e pt = true.
+  Proof.
+    intros [s [Hin [Hid _]]] Hg. unfold geo_end.
+    rewrite (find_sym_complete l (e_sym e) s Hnd Hin Hid).
+    destruct (virtual (s_kind s)) eqn:Hv; [reflexivity|].
+    destruct (Hg s Hin Hid Hv) as [p [x [y [Hp [Ha Hpt]]]]]. rewrite Hp, Hpt.
+    apply existsb_exists. exists (PinAt (e_sym e) p x y). split; [exact Ha|].
+    unfold at_pin_pt. simpl. rewrite Nat.eqb_refl, !Z.eqb_refl, !andb_true_r. apply pin_eqb_eq. reflexivity.
+  Qed.
+
+  Lemma chk_geo_complete : chk_geo l = true.
+  Proof.
+    unfold chk_geo. apply forallb_forall. intros n Hn.
+    destruct (ok_drawn c l H n Hn) as [[a [b [Hf Ht]]] [G1 G2]].
+    destruct (ok_ends c l H n Hn) as [w [_ [_ [E1 E2]]]].
+    unfold net_geo. rewrite (geo_end_complete w _ _ E1 G1), (geo_end_complete w _ _ E2 G2), Hf, Ht. reflexivity.
+  Qed.
+
   Theorem schem_ok_complete_sec : schem_ok c l = true.
   Proof.
     unfold schem_ok. rewrite !andb_true_iff. repeat split.
@@ -317,6 +357,8 @@ Section Complete.
     - exact chk_geom_complete.
     - exact chk_ends_complete.
     - unfold chk_wires. apply forallb_forall. intros w Hw. apply chk_wire_complete. exact Hw.
+    - exact chk_pinpts_complete.
+    - exact chk_geo_complete.
   Qed.
 End Complete.
 
